@@ -6,7 +6,9 @@
 patch="$(readlink -f "$1")"; shift
 wt=$(mktemp -d /tmp/mutwt.XXXXXX)
 git -C /repo worktree add -q --detach "$wt" HEAD || exit 2
-cleanup() { git -C /repo worktree remove --force "$wt" 2>/dev/null; rm -rf "$wt"; }
+# the build output of the trial (harness binary, cases, .vo) goes with the worktree; evidence.json and replay/ stay
+cleanup() { git -C /repo worktree remove --force "$wt" 2>/dev/null; rm -rf "$wt"
+  for b in /verif/build/*@$(echo "$wt" | sed 's/[^A-Za-z0-9_]\+/_/g'); do [ -d "$b" ] && find "$b" -mindepth 1 -maxdepth 1 ! -name evidence.json ! -name replay -exec rm -rf {} + ; done; }
 trap cleanup EXIT
 git -C "$wt" apply "$patch" || { echo "patch does not apply"; exit 2; }
 cd /verif
